@@ -89,23 +89,25 @@ claimed = {
 
 # Second session: what was added to each check (appended to the texts above), and notes that replace outdated ones.
 added = {
- "C01": " (B') Triples that share subject, predicate identifier and object and differ at most in the predicate's kind or instant (immutable, an instant, one nanosecond later, the same instant in another zone) are added in one batch and removed by batches of one to three: Exist and the listing must treat them as different triples exactly when kind or instant differ.",
+ "C01": " A failed create of an existing name leaves the populated graph in place (handle obtained afterwards sees the triples, the original handle still writes to the same graph). (B') Triples that share subject, predicate identifier and object and differ at most in the predicate's kind or instant (immutable, an instant, one nanosecond later, the same instant in another zone) are added in one batch and removed by batches of one to three: Exist and the listing must treat them as different triples exactly when kind or instant differ.",
  "C02": " The five lookups that fix the predicate draw their anchors from a pool that spells one instant in two zones, so 'same instant' is compared as instants.",
  "C03": " A second harness (32 shapes) covers the extraction keywords AS/ID/TYPE/AT on subject, predicate and object (including extraction that cannot apply: the triple does not match), predicate windows \"p\"@[T1,T2] with open sides, global BEFORE/AFTER/BETWEEN windows (immutable triples kept), two FROM graphs, existence tests with aliases, predicate-valued objects with anchor bindings and time joins between clauses. Found and repaired here: ID extraction on a literal object failed the whole query (194b8fb). Two more planner defects are known findings.",
  "C04": " Reification is also checked with two and three solution rows, including rows that differ only in a binding used after the ';' (one fresh blank node with its reification triples and extra fact per row).",
- "C05": " The graph-level round trip WriteGraph -> ReadIntoGraph is checked for up to K symbolic triples over the small universe and over single component bytes of the whole printable range (io.WriteGraph's formatting runs on symbolic text through the engine's fmt model).",
- "C06": " A concurrent harness runs two goroutines computing UUIDs of different nodes/predicates/literals/triples with sync.Pool's Get/Put as schedule points (a Put buffer may be handed to the other goroutine): on every schedule with up to 3 preemptions each result equals the UUID computed before.",
- "C07": " Scenarios 6 and 7 run each of the twelve read methods of a graph against a batch add and against a removal (race freedom for every method, batch atomicity for the methods whose arguments the batch elements share).",
- "C08": " (stage 3') Eleven well-formed statement prefixes (SELECT with and without aggregates, inside the pattern, after HAVING / HAVING ( ?x / ORDER BY ?x / GROUP BY ?x / FILTER / OPTIONAL {, CONSTRUCT templates) are followed by every token tail of up to 4 (thorough 6) tokens the grammar can inspect, through the semantic hooks, planner.New and Execute.",
- "C09": " A paging harness gives every one of the eleven lookup methods seven (thorough nine) results and makes page size n in [1,4] and offset k in [0,4] solver variables: page k must be exactly the k-th block of n elements of the unpaged sequence.",
+ "C05": " Printing is checked as a function of the value alone (two or three predicates, possibly at one instant in different zones, printed one after the other must each parse back with their own offset), and a triple whose text object consists of up to 3 (thorough 5) symbolic 7-bit bytes - brackets, quotes, slashes and blanks that look like the separators triple.Parse searches for - parses back to the same text. The graph-level round trip WriteGraph -> ReadIntoGraph is checked for up to K symbolic triples over the small universe and over single component bytes of the whole printable range (io.WriteGraph's formatting runs on symbolic text through the engine's fmt model).",
+ "C06": " Anchors at large: two temporal predicates anchored at time.Unix(s, n) with s symbolic over 2^33 seconds starting in 1970 or at Go's zero time and n over 10^9 nanoseconds have the same UUID exactly when the instants are equal and never the UUID of the immutable predicate (decided by cvc5 bv-as-int). A concurrent harness runs two goroutines computing UUIDs of different nodes/predicates/literals/triples with sync.Pool's Get/Put as schedule points (a Put buffer may be handed to the other goroutine): on every schedule with up to 3 preemptions each result equals the UUID computed before.",
+ "C07": " Scenario 8 calls every read method with default, paged and rejected (LatestAnchor together with FilterOptions) options: the result channel is closed on every return - an unclosed channel is a deadlock of the ranging consumer - and the options value is left untouched. Scenarios 6 and 7 run each of the twelve read methods of a graph against a batch add and against a removal (race freedom for every method, batch atomicity for the methods whose arguments the batch elements share).",
+ "C08": " (stage 3') Eleven well-formed statement prefixes (SELECT with and without aggregates, inside the pattern, after HAVING / HAVING ( ?x / ORDER BY ?x / GROUP BY ?x / FILTER / OPTIONAL {, CONSTRUCT templates) are followed by every token tail of up to 4 (thorough 6) tokens the grammar can inspect, through the semantic hooks, planner.New and Execute. The corpus is also executed in the engine's schedule mode (every interleaving of the lexer, writer and worker goroutines with one preemption). Running out of the step budget is a violation of its own (C08/terminates).",
+ "C09": " The filter functions are also checked on the object field over predicate-valued objects (immutable or temporal at pool anchors). A paging harness gives every one of the eleven lookup methods seven (thorough nine) results and makes page size n in [1,4] and offset k in [0,4] solver variables: page k must be exactly the k-th block of n elements of the unpaged sequence.",
  "C10": " End to end (HarnessC10Optional) six OPTIONAL shapes over K symbolic triples are compared with the reference left outer join.",
  "C11": " End to end (HarnessPipeline, through lexer, parser, planner and driver): seven GROUP BY shapes (count, count distinct, int64 sum, two counts and a sum in one statement, two grouping keys, grouping over a join, GROUP BY + ORDER BY + LIMIT) and GROUP BY a time anchor with anchors one nanosecond apart, over K symbolic triples, against a reference evaluation whose every comparison is a solver-decided branch.",
  "C12": " End to end (HarnessPipeline): eight ORDER BY / LIMIT shapes (two keys in mixed directions, int64 and time keys, ORDER BY an alias, LIMIT 0/1/2 with and without ORDER BY, the single-clause limit push-down and a two-clause LIMIT) and ORDER BY followed by HAVING and LIMIT on three rows: row count = min(n, N), every row qualifies with its multiplicity, the key sequence is the sorted one.",
- "C13": " The boolean harness takes binding-vs-binding and binding-vs-literal leaves with every operator (NOT over < and > against a constant included). End to end (HarnessPipeline): thirteen HAVING shapes (node, text, int64, time and extracted-id operands, NOT/AND/OR, a HAVING on an aggregate, HAVING between ORDER BY and LIMIT) keep exactly the qualifying rows.",
+ "C13": " The boolean harness takes binding-vs-binding and binding-vs-literal leaves with every operator (NOT over < and > against a constant included). End to end (HarnessPipeline): thirteen HAVING shapes (node, text, int64, time and extracted-id operands, NOT/AND/OR, a HAVING on an aggregate, HAVING between ORDER BY and LIMIT) keep exactly the qualifying rows. Binding-against-binding comparisons are checked on two int64 cells (four digits quick, full range thorough) and on text literal against extracted string cells.",
  "C14": " The number of processors and the schedule: a fan-out join over five concrete rows is executed with GOMAXPROCS 1 and 2 (4 in thorough) in the engine's schedule mode (every interleaving of the producer and the per-row workers with one preemption, happens-before race detection on): the rows are the reference join on every schedule. ORDER BY determinism: statements with a repeated ORDER BY key are executed with every map range inside bql/semantic explored in rotated and reversed order; this found a genuine defect, repaired in b2d5943.",
- "C16": " Twenty-three templates put a hole of up to 2 (thorough 3) symbolic bytes deep inside every lexer state (anchors, bounds, node ids, literal values and type names, bindings, time and filter-function contexts) with the same structure obligations.",
+ "C16": " Non-termination is an obligation of its own here (a path that exhausts the step budget is a counterexample, confirmed natively by a run that does not return). Whitespace is also varied inside whole statements: twenty statements are re-joined from their tokens and one gap at a time is replaced by one or two symbolic whitespace bytes, token kinds and trimmed texts must not change (time literals after comparison operators and BEFORE/AFTER/BETWEEN, filter functions, bounds in context). Twenty-three templates put a hole of up to 2 (thorough 3) symbolic bytes deep inside every lexer state (anchors, bounds, node ids, literal values and type names, bindings, time and filter-function contexts) with the same structure obligations.",
+ "C15": " triple.Parse is executed on ten templates of valid triple text with a hole of up to 3 (thorough 4) symbolic 7-bit bytes inside the subject, the predicate id, the anchor, a node or text object, in place of a separator or a component, and on the hole alone (found and repaired: the inverted slice bounds when the object separator precedes the subject separator, cad2553); typed literal templates also go through a bounded builder; the line reader is checked with and without a malformed line and with and without a final newline.",
+ "C20": " The whole corpus (19 statements, two of them existence tests with aliases over one and two graphs) also runs in the engine's schedule mode with one preemption, so that the moment a driver takes between closing its channel and returning its error is any point the scheduler chooses.",
  "C18": " The no-state obligation is also checked systematically over the grammar: statement 1 is a witness sentence for every alternative of every rule (derived from the tables as in C17 and made acceptable to the semantic layer), statement 2 one of 14 corpus statements.",
- "C19": " Three more harnesses: every one of the twelve read methods read twice with independently chosen options (page size/offset symbolic, window anchors from a pool with a nanosecond step and a second zone, LatestAnchor, filter functions), optionally with a write in between; a read abandoned by its caller after 0-2 of 3 results (context cancelled), then issued again; and a read overlapping a write on one handle in schedule mode (2 preemptions) - the stale entry this leaves is a recorded finding (engine-only).",
+ "C19": " Three more harnesses: every one of the twelve read methods read twice with independently chosen options (page size/offset symbolic, window anchors from a pool with a nanosecond step and a second zone, LatestAnchor, filter functions), optionally with a write in between; a read abandoned by its caller after 0-2 of 3 results (context cancelled), then issued again; and a read overlapping a write on one handle in schedule mode (2 preemptions) - the stale entry this leaves is a recorded finding (engine-only). A fourth harness issues two reads of any two of the twelve methods with arguments that differ only in anchor, kind or subject (cache keys must separate methods and arguments), and a rejected option combination must be rejected again on the second call.",
 }
 notes = {
  "C03": "Statement concrete, data symbolic over the small universe; canonical schedule (rows compared as a multiset); FILTER clauses and patterns of more than two clauses are not in the shape lists.",
